@@ -616,13 +616,16 @@ fn main() {
         .to_string();
 
     let replays = known_cases(&mut out);
-    for (what, still) in replays {
-        out.known.push(KnownReplay {
-            class: KNOWN.to_string(),
-            still_fails: still,
-            detail: if still { format!("panics (overflow checks on): {}", what) } else { format!("no longer panics: {}", what) },
-        });
-    }
+    let failing: Vec<&str> = replays.iter().filter(|(_, still)| *still).map(|(w, _)| w.as_str()).collect();
+    out.known.push(KnownReplay {
+        class: KNOWN.to_string(),
+        still_fails: !failing.is_empty(),
+        detail: if failing.is_empty() {
+            "none of the three stored witnesses panics any more".to_string()
+        } else {
+            format!("{} of 3 stored witnesses panic (overflow checks on): {}", failing.len(), failing.join(" | "))
+        },
+    });
     let (nsmall, ndense) = if args.thorough { (9000, 450) } else { (900, 36) };
     // interleave so that shards cost about the same
     let per = (nsmall / ndense).max(1);
